@@ -861,6 +861,27 @@ def r8(rr, repo):
     rr.ob("the interval fields are weighted 86400, 3600, 60, 1 (days, hours, minutes, seconds)", weights == [86400, 3600, 60, 1], um, lists[0] if lists else pti, witness=str(weights), key='interval-weights')
     last4 = any(isinstance(x, ast.Subscript) and isinstance(x.slice, ast.Slice) and U(x.slice.lower) == '-4' and x.slice.upper is None for x in ast.walk(pti))
     rr.ob("missing leading fields count as 0 and the rightmost field is the seconds (the text is left-padded and its LAST four fields are taken)", last4 and "'0:0:0:' + text" in U(pti), um, pti, key='interval-right-aligned')
+    # the '@' form: a time of day without a date means TODAY in the zone the time is read in, and a local date / time carries the UTC offset in force on that date
+    _, pdt = repo.find(f'{UTL_}::parse_date_and_or_time')
+    tzs = [n for n in walk_scope(pdt) if isinstance(n, ast.Assign) and len(n.targets) == 1 and isinstance(n.targets[0], ast.Name) and 'timezone.utc' in U(n.value)]
+    rr.floor('zone choices in parse_date_and_or_time', len(tzs), 1, um, pdt)
+    tz = tzs[0].targets[0].id
+    nows = [c for c in q.calls_in(pdt) if U(c.func) in ('datetime.now', 'datetime.today', 'date.today', 'datetime.utcnow', 'datetime.date.today', 'datetime.datetime.now', 'datetime.datetime.today', 'time.time', 'time')
+            and c is not tzs[0].value and not any(x is c for x in ast.walk(tzs[0].value))]
+    rr.floor("reads of the current date in parse_date_and_or_time (the default for a missing date)", len(nows), 1, um, pdt)
+    for c in nows:
+        in_zone = U(c.func).endswith('.now') and ((c.args and U(c.args[0]) == tz) or any(k.arg == 'tz' and U(k.value) == tz for k in c.keywords))
+        rr.ob("'today' is today in the zone the time is read in (datetime.now(<zone>)): the host's calendar date with the zone stamped on differs from it for some hours of every day when '@' times are UTC "
+              "and the host is not", in_zone, um, c, witness=U(c)[:70], key='today-in-the-zone-of-the-deadline')
+    rets = [n for n in walk_scope(pdt) if isinstance(n, ast.Return) and n.value is not None]
+    local_by_date = any(isinstance(c, ast.Call) and isinstance(c.func, ast.Attribute) and c.func.attr == 'astimezone' and not c.args and 'tzinfo=None' in U(c.func.value).replace(' ', '')
+                        for r in rets for c in ast.walk(r.value))
+    plain = all(isinstance(r.value, ast.Name) for r in rets)
+    if local_by_date or plain:
+        rr.ob("a local date / time is given the UTC offset the local zone has ON THAT DATE (naive wall-clock time -> .astimezone()), not the one in force today - a date on the other side of a "
+              "daylight-saving change would be an hour off", local_by_date, um, rets[0] if rets else pdt, witness=U(rets[0])[:110] if rets else '', key='local-offset-of-the-date')
+    else:
+        rr.unresolved('how parse_date_and_or_time attaches the local zone was not recognised', um, rets[0] if rets else pdt, witness=U(rets[0])[:110] if rets else '', key='local-offset-of-the-date')
 
 
 @rule('C08.R9', "an exit announcement is heard from every source while a filter waits: a source whose set for the current id is complete is taken out of the poller until the whole set is returned, so whatever it "
@@ -965,6 +986,21 @@ def r12(rr, repo):
                 reraises = any(isinstance(x, ast.Raise) and x.exc is None for x in h.body)
                 ok = ok or (wide and destroys and reraises)
         rr.ob('a failure while this endpoint is created destroys what was created before and is raised again', ok, mod, c, witness=U(c)[:60], key=f'partial-setup-torn-down|{U(c.func)}|{makes.index(c)}')
+    # ... and the same inside the publisher: it binds two sockets per address, one address after the other; when one of them can not be bound the ones bound so far are released
+    zm, sinit = repo.find(f'{Z}::ZMQSender.__init__')
+    binds = [c for c in q.calls_in(sinit, into_functions=False) if (isinstance(c.func, ast.Attribute) and c.func.attr == 'bind') or
+             (U(c.func) == 'attach' and c.args and isinstance(c.args[0], ast.Attribute) and c.args[0].attr == 'bind')]
+    rr.floor('bind sites in ZMQSender.__init__', len(binds), 2, zm, sinit)
+    for c in binds:
+        tries = [a for a in _anc(c) if isinstance(a, ast.Try) and any(x is c for st_ in a.body for x in ast.walk(st_))]
+        ok = False
+        for t in tries:
+            for h in t.handlers:
+                wide = h.type is None or U(h.type) in ('BaseException', 'Exception')
+                destroys = any(isinstance(x, ast.Call) and U(x.func) == 'self.destroy' for x in ast.walk(h))
+                reraises = any(isinstance(x, ast.Raise) and x.exc is None for x in h.body)
+                ok = ok or (wide and destroys and reraises)
+        rr.ob('a bind that fails releases what the publisher has bound so far (self.destroy()) and is raised again', ok, zm, c, witness=U(c)[:60], key=f'partial-bind-torn-down|{binds.index(c)}')
     pre = [n for n in init.body if isinstance(n, ast.Assign) and any('self.metrics_' == U(t) for t in n.targets)]
     first_try = min([n.lineno for n in init.body if isinstance(n, ast.Try)] or [10 ** 9])
     rr.ob('everything MQ.destroy touches exists before the first endpoint is created', bool(pre) and pre[0].lineno < first_try, mod, pre[0] if pre else init, witness=f'self.metrics_ assigned at line {pre[0].lineno if pre else None}, try at {first_try}', key='destroy-usable-early')
